@@ -50,6 +50,13 @@ theorem layout_by_rate_then_decl (cns : List CN) (base : Nat) (i j : Nat) (hi : 
     simp only [slotOf] at h1 ⊢
     cases hr : cns[i].rate <;> rw [hr] at h1 <;> simp [groupStart] at h1 ⊢ <;> omega
 
+/-- every parameter that is not consumed by `prepend` becomes exactly one named control, in
+    declaration order, whatever the length of `rates` -/
+theorem names_in_declaration_order (specs : Nat → Option Val) (base : Nat) (params : List Param)
+    (rates : List RateSpec) (skip : Nat) :
+    (cnsOf specs base params rates skip).map (·.name) = (params.drop skip).map (·.name) :=
+  mkCNs_names _ _ _ _ _ (padRates_length _ _)
+
 /-- which rate group a parameter lands in: a rate name in `rates` wins over the annotation, the
     annotation over the default (control rate); lags only reach control-rate parameters -/
 theorem classify_spec (annot : Option Rate) (rs : RateSpec) :
